@@ -37,9 +37,6 @@ def nameOf {α} [BEq α] (tbl : List (String × α)) (a : α) : String :=
   | some p => p.1
   | none => "?"
 
-instance : BEq Leaf := ⟨fun a b => decide (a = b)⟩
-instance : BEq CollO := ⟨fun a b => decide (a = b)⟩
-instance : BEq MapO := ⟨fun a b => decide (a = b)⟩
 instance : BEq EK := ⟨fun a b => decide (a = b)⟩
 
 def arr (j : Json) : Except String (Array Json) :=
@@ -181,6 +178,7 @@ def toOp (j : Json) : Except String Op := do
   | .str "float" => pure .float
   | .str "str" => pure .str
   | .str "bool" => pure .bool
+  | .str "iter" => pure .iter
   | .arr a =>
       let k ← lookupName leafNames (← str a[1]!)
       match (← str a[0]!) with
@@ -192,6 +190,7 @@ def toOp (j : Json) : Except String Op := do
 structure OracleTable where
   calls : List (Op × V × Except EK V)
   eqs : List (V × V × Bool)
+  enums : List (String × String × V) := []
 
 def toOracleTable (j : Json) : Except String OracleTable := do
   let calls ← (match j.getObjVal? "calls" with
@@ -212,7 +211,13 @@ def toOracleTable (j : Json) : Except String OracleTable := do
           let e ← arr e
           pure ((← toV e[0]!), (← toV e[1]!), (← bool e[2]!)))
     | .error _ => pure [])
-  pure { calls := calls, eqs := eqs }
+  let enums ← (match j.getObjVal? "enums" with
+    | .ok c => do
+        (← arr c).toList.mapM (fun e => do
+          let e ← arr e
+          pure ((← str e[0]!), (← str e[1]!), (← toV e[2]!)))
+    | .error _ => pure [])
+  pure { calls := calls, eqs := eqs, enums := enums }
 
 def OracleTable.toOracle (t : OracleTable) : Oracle where
   call := fun op v =>
@@ -223,6 +228,7 @@ def OracleTable.toOracle (t : OracleTable) : Oracle where
     match t.eqs.find? (fun e => e.1 == a && e.2.1 == b) with
     | some e => e.2.2
     | none => a == b
+  enumValue := fun c m => (t.enums.find? (fun e => e.1 == c && e.2.1 == m)).map (·.2.2)
 
 def ofExc : Exc → Json
   | .py k => Json.mkObj [("kind", "py"), ("py", nameOf ekNames k)]
